@@ -171,7 +171,7 @@ def to_case(res: Dict[str, Any]) -> Dict[str, Any]:
     objs = {}
     for o in proj["objs"]:
         objs[o["id"]] = {k: o[k] for k in ("id", "qid", "name", "cls", "parent", "priv", "ownpage", "file", "frag",
-                                           "incontents", "bases", "mro", "subclasses", "doc", "docsrc", "initial",
+                                           "incontents", "inall", "bases", "mro", "subclasses", "doc", "docsrc", "initial",
                                            "dupname", "dupfull")}
     pages = [f for f, raw in zip(site["files"], site["rawfiles"]) if raw.endswith(".html")]
     links = sorted({(l["page"], l["file"], l["frag"], l["prod"], l["member"]) for l in site["links"]})
@@ -604,7 +604,7 @@ def run_property(ctx: Ctx, prop: str) -> int:
             raise MachineryError("vacuous action in Site.tla: %s" % rc.coverage)
 
     # ---- spec -> code: realise a stratified sample of the models
-    budget = 200 if ctx.quick else 1500
+    budget = 160 if ctx.quick else 1500
     chosen: List[int] = []
     per = 2 if ctx.quick else 6
     for sg, idxs in sorted(sigs.items(), key=lambda kv: (len(kv[1]), kv[0])):
@@ -702,6 +702,8 @@ def run_property(ctx: Ctx, prop: str) -> int:
                         "theme": j["theme"], "objects": len(case["objs"]), "pages": len(case["site"]["pages"]),
                         "links": len(case["site"]["links"]), "entries": len(case["site"]["entries"]),
                         "failing": {kk: len(vv) for kk, vv in mine.items() if vv}})
+    ctx.extra["objects_sharing_a_full_name"] = sum(x["objs"].get("name_collisions", 0) for x in res)
+    ctx.extra["objects_in_contents_but_not_in_allobjects"] = sum(1 for c in cases for o in c["objs"].values() if not o["inall"])
     ctx.extra["sites_crawled"] = {"enum_models_realised": len(jobs), "real_package_runs": len(res) - len(jobs)}
     ctx.extra["violation_instances_by_class"] = seen_classes
     ctx.extra["twin_vs_tlc_disagreements"] = disagreements
